@@ -132,7 +132,7 @@ def load_known(prop):
 
 def match_known(known, signature):
     for e in known:
-        if e.get("signature") == signature:
+        if e.get("signature") == signature or signature in e.get("signatures", ()):
             return e
     return None
 
@@ -208,9 +208,10 @@ def main(prop, check_module, cases, tier, seed, describe, symbolic=True, deadlin
     # ---------------------------------------------------------------- report
     seen_known = set()
     for e, v in known_hits:
-        if e["signature"] not in seen_known:
-            seen_known.add(e["signature"])
-            print("KNOWN-FINDING: property=%s %s" % (prop, e.get("what", e["signature"])))
+        key = e.get("signature") or id(e)
+        if key not in seen_known:
+            seen_known.add(key)
+            print("KNOWN-FINDING: property=%s %s" % (prop, e.get("what", e.get("signature"))))
     for v in violations:
         print("VIOLATION property=%s replay=%s" % (prop, v.get("replay")))
         if v.get("summary"):
